@@ -9,7 +9,6 @@ import (
 	"testing"
 	"time"
 
-	"github.com/atomix/go-sdk/pkg/test"
 	"github.com/onosproject/onos-lib-go/pkg/errors"
 	"github.com/onosproject/onos-lib-go/pkg/logging"
 	"pgregory.net/rapid"
@@ -27,6 +26,7 @@ const (
 	fAlias     = "F-config-applied-aliases-committed"
 	fLeak      = "F-config-failed-write-leaks-values"
 	fV3LoopVar = "F-v3-config-store-loopvar-alias"
+	fEarly     = "F-watch-first-events-lost-multi-partition"
 )
 
 func TestMain(m *testing.M) {
@@ -217,7 +217,7 @@ type world struct {
 	x      *vstat.Ctx
 	c      Case
 	a      api
-	client *test.Client
+	client *atomixClient
 	keys   []keyModel
 	last   map[int]uint64         // per log: highest index assigned
 	used   map[int]map[uint64]int // per log: index -> key
@@ -234,17 +234,21 @@ type world struct {
 	listedLoop bool
 	pumpDemo   map[string]bool // classes of abandoned watchers seen (for the known-finding demonstration)
 	torn       bool
+	// keys for which a live event has reached some watcher through the store-wide pump (configuration stores)
+	pumpConfirmed map[int]bool
+	touched       map[int]bool // v3 transaction store: targets named in some call so far
 }
 
 func newWorld(c Case, x *vstat.Ctx) (*world, error) {
-	client := test.NewClient()
+	markCaseStart()
+	client := newAtomixClient()
 	a, err := newAPI(c.Store, client)
 	if err != nil {
 		client.Close()
 		return nil, err
 	}
 	w := &world{x: x, c: c, a: a, client: client, keys: make([]keyModel, c.Keys), last: map[int]uint64{}, used: map[int]map[uint64]int{},
-		from: map[[2]uint64]map[int]bool{}, pumpDemo: map[string]bool{}}
+		from: map[[2]uint64]map[int]bool{}, pumpDemo: map[string]bool{}, pumpConfirmed: map[int]bool{}, touched: map[int]bool{}}
 	w.held = make([][]any, c.Clients)
 	w.byCl = make([][]*watcher, c.Clients)
 	for i := range w.held {
@@ -267,6 +271,11 @@ func (w *world) call(what string, f func(ctx context.Context) error) (error, err
 	go func() { done <- f(ctx) }()
 	select {
 	case err := <-done:
+		if err != nil && ctx.Err() != nil {
+			// the generous deadline expired inside the call (overloaded machine): no verdict
+			w.x.Logf("%s ran into the %v deadline: %v (inconclusive)", what, callBound, err)
+			return nil, vstat.ErrSkip
+		}
 		return err, nil
 	case <-time.After(callBound + 5*time.Second):
 		if p := stablyParked(); len(p) > 0 {
@@ -435,6 +444,10 @@ func (w *world) step(i int, o Op) error {
 	}
 	w.x.Logf("#%d %s", i, o)
 	var err error
+	switch o.T {
+	case "create", "get", "getalt", "update", "upstatus":
+		w.touched[w.a.LogOf(o.K)] = true
+	}
 	switch o.T {
 	case "create":
 		err = w.doCreate(o)
@@ -634,13 +647,19 @@ func (w *world) doList(o Op) error {
 	if len(missing) == 0 {
 		return nil
 	}
-	// trigger of fV3List: v3 transactions exist under two targets and exactly one target's log was listed completely
-	if w.c.Store == KindV3Tx && len(logs) >= 2 && len(seenLogs) == 1 {
-		complete := true
-		for k := range w.keys {
-			if w.keys[k].exists && seenLogs[w.a.LogOf(k)] && !seen[k] {
-				complete = false
+	// trigger of fV3List: the v3 transaction store knows two targets (any call naming a target registers it)
+	// and what was listed is exactly the content of one target's log (possibly an empty one)
+	_, _ = logs, seenLogs
+	if w.c.Store == KindV3Tx && len(w.touched) >= 2 {
+		complete := false
+		for lg := range w.touched {
+			same := true
+			for k := range w.keys {
+				if w.keys[k].exists && (w.a.LogOf(k) == lg) != seen[k] {
+					same = false
+				}
 			}
+			complete = complete || same
 		}
 		if complete {
 			what := "v3 transaction List returns after the first target's log: transactions of every other target are missing"
@@ -766,6 +785,7 @@ func (w *world) doWatch(o Op) error {
 		for k := range w.keys {
 			if w.keys[k].exists && wt.inScope(k) {
 				wt.mustSee[k] = true
+				wt.replayKeys = append(wt.replayKeys, k)
 			}
 		}
 	}
@@ -823,6 +843,15 @@ func (w *world) doCancel(o Op) error {
 			// listed: never cancel a v3 transaction watch in this process
 			wt.notCancelable = true
 			w.x.Excluded(fDblClose)
+			if wt.paused && wt.pending > 0 {
+				w.x.Class("watch:abandoned-with-event-in-flight")
+				w.x.Excluded(fPump)
+				if wt.key >= 0 {
+					w.pumpDemo["one"] = true
+				} else {
+					w.pumpDemo["all"] = true
+				}
+			}
 			if verdict == "panics" && vstat.IsKnown(prop, fDblClose) {
 				w.x.Known(fDblClose, "cancelling a v3 transaction watch closes the caller's channel twice: the store goroutine panics and takes the process down")
 			}
@@ -838,6 +867,17 @@ func (w *world) doCancel(o Op) error {
 		if err := w.syncAll("before cancel"); err != nil {
 			return err
 		}
+	}
+	if !wt.replayDone() && w.c.Store != KindV2Prop {
+		// second trigger of fPump: the per-watch goroutine leaves the replay phase on cancellation without
+		// anybody left to receive what the store-wide pump may already be sending to it
+		w.x.Class("watch:cancelled-before-replay-observed")
+		if w.listedPump {
+			w.x.Excluded(fPump)
+			wt.notCancelable = true
+			return nil
+		}
+		wt.midReplay = true
 	}
 	wt.cancel()
 	wt.cancelled = true
@@ -911,12 +951,15 @@ func (w *world) syncAll(where string) error {
 		sort.Ints(keys)
 		for _, k := range keys {
 			want := w.keys[k].version
-			if waitFor(waitBound, func() bool { return wt.lastVersion(k) == want }) {
+			if w.waitDelivered(wt, k, func() bool { return wt.lastVersion(k) == want }) {
 				continue
 			}
-			return w.diagnose(wt, k, want, where)
+			if err := w.diagnose(wt, k, want, where); err != nil {
+				return err
+			}
 		}
 		wt.pending = 0
+		w.noteConfirmed(wt)
 		if err := w.checkOrder(wt); err != nil {
 			return err
 		}
@@ -936,6 +979,94 @@ func (w *world) describeWatcher(wt *watcher) string {
 	return fmt.Sprintf("w%d (client %d, %s%s)", wt.id, wt.client, sc, r)
 }
 
+// waitDelivered waits for an event. What makes a missing event a violation is
+// never the length of this wait (see diagnose: a parked pump, or a later event
+// of the same record overtaking the missing one), so the wait before the
+// diagnosis can be moderate: one second, a quarter of a second while the
+// subscription is still inside the window of fEarly. With an abandoned
+// watcher in the history it ends as soon as the same store-wide pump sits in a
+// channel send in three goroutine dumps in a row (keeps shrinking fast).
+func (w *world) waitDelivered(wt *watcher, k int, cond func() bool) bool {
+	if waitFor(20*time.Millisecond, cond) {
+		return true
+	}
+	bound := time.Second
+	if w.earlyWindow(wt, k) {
+		bound = 250 * time.Millisecond
+	}
+	abandoned := false
+	for _, o := range w.ws {
+		abandoned = abandoned || o.abandoned || o.midReplay
+	}
+	if !abandoned {
+		return waitFor(bound, cond)
+	}
+	streak := map[string]int{}
+	deadline := time.Now().Add(bound)
+	for time.Now().Before(deadline) {
+		if waitFor(100*time.Millisecond, cond) {
+			return true
+		}
+		cur := map[string]int{}
+		for _, g := range pumpsOf(values(parkedInStore(dumpGoroutines()))) {
+			cur[g.id] = streak[g.id] + 1
+			if cur[g.id] >= 3 {
+				return cond()
+			}
+		}
+		streak = cur
+	}
+	return cond()
+}
+
+func values(m map[string]gInfo) []gInfo {
+	out := make([]gInfo, 0, len(m))
+	for _, g := range m {
+		out = append(out, g)
+	}
+	return out
+}
+
+// noteConfirmed records for which records live events have demonstrably
+// started to flow (see fEarly).
+func (w *world) noteConfirmed(wt *watcher) {
+	for _, e := range wt.snapshot() {
+		if e.Replayed || e.Key < 0 || e.Key >= w.c.Keys {
+			continue
+		}
+		wt.confirmed[e.Key] = true
+		w.pumpConfirmed[e.Key] = true
+	}
+}
+
+// earlyWindow tells whether a lost event falls into the window in which the
+// Atomix map client has returned from Events() although not every partition
+// has registered the listener yet (it returns on the first partition's
+// acknowledgement): the proposal store subscribes per Watch call, the
+// configuration stores once when the store is opened. The transaction logs are
+// single-partition primitives and have no such window.
+func (w *world) earlyWindow(wt *watcher, k int) bool {
+	for _, e := range wt.snapshot() {
+		if !e.Replayed && e.Key >= 0 && e.Key < w.c.Keys {
+			wt.confirmed[e.Key] = true
+		}
+	}
+	switch w.c.Store {
+	case KindV2Prop:
+		return !wt.confirmed[k]
+	case KindV2Cfg, KindV3Cfg:
+		for _, o := range w.ws {
+			for _, e := range o.snapshot() {
+				if !e.Replayed && e.Key == k {
+					w.pumpConfirmed[k] = true
+				}
+			}
+		}
+		return !w.pumpConfirmed[k]
+	}
+	return false
+}
+
 // diagnose decides what a missing event means. Only two observations make a
 // violation: a store goroutine parked for good in a channel send, or a later
 // live event for the same record overtaking the missing one.
@@ -945,6 +1076,7 @@ func (w *world) diagnose(wt *watcher, k int, want uint64, where string) error {
 	if p := pumpsOf(stablyParked()); len(p) > 0 {
 		return w.pumpVerdict(wt, k, want, where, p)
 	}
+	earlyLoss := w.earlyWindow(wt, k)
 	// marker: one more write of the same record; events of one record travel FIFO
 	m := &w.keys[k]
 	var o any
@@ -983,6 +1115,14 @@ func (w *world) diagnose(wt *watcher, k int, want uint64, where string) error {
 			markerLive = true
 		}
 	}
+	if !sawWanted && markerLive && earlyLoss {
+		what := "the first event(s) after a subscription are lost: the Atomix map client returns from Events() on the first partition's acknowledgement, writes to records of the other partitions made right after Watch (proposal store) or right after the store was opened (configuration stores) are never delivered"
+		if vstat.IsKnown(prop, fEarly) {
+			w.x.Known(fEarly, what)
+			return nil
+		}
+		return vstat.Violf("%s: %s: %s was never shown version %d of %s, a later write (version %d) was delivered. events: %+v", fEarly, what, w.describeWatcher(wt), want, keyName(k), after.Version, wt.snapshot())
+	}
 	if !sawWanted && markerLive {
 		return vstat.Violf("%s: %s was never shown version %d of %s (the latest state for as long as the history lasted): a later write (version %d) was delivered, the missing event can no longer arrive. events: %+v",
 			where, w.describeWatcher(wt), want, keyName(k), after.Version, wt.snapshot())
@@ -995,12 +1135,14 @@ func (w *world) pumpVerdict(wt *watcher, k int, want uint64, where string, parke
 	var culprits []string
 	for _, o := range w.ws {
 		if o.abandoned {
-			culprits = append(culprits, w.describeWatcher(o))
+			culprits = append(culprits, w.describeWatcher(o)+" cancelled while not reading")
+		} else if o.midReplay {
+			culprits = append(culprits, w.describeWatcher(o)+" cancelled during its replay phase")
 		}
 	}
-	msg := fmt.Sprintf("%s: %s is never shown version %d of %s: store goroutines are parked for good in a channel send\n%s", where, w.describeWatcher(wt), want, keyName(k), frames(parked))
+	msg := fmt.Sprintf("%s: %s is never shown version %d of %s: store goroutines are parked for good in a channel send\n%sall store goroutines:\n%s", where, w.describeWatcher(wt), want, keyName(k), frames(parked), storeGoroutines())
 	if len(culprits) > 0 {
-		return vstat.Violf("%s: a watcher that had stopped reading was cancelled while an event for it was in flight (%s); its goroutine stays in `ch <- event`, the store-wide pump blocks behind it and no watcher of the store receives anything any more. %s",
+		return vstat.Violf("%s: the per-watch goroutine honours cancellation only in its main select (%s): cancelled while blocked in `ch <- event`, or leaving the replay phase without a receiver for its internal channel, it leaves the store-wide pump blocked for good and no watcher of the store receives anything any more. %s",
 			fPump, strings.Join(culprits, ", "), msg)
 	}
 	return vstat.Violf("%s", msg)
@@ -1104,16 +1246,22 @@ func (w *world) teardown() {
 	for _, wt := range w.ws {
 		wt.stop()
 	}
-	if w.c.Store != KindV3Tx {
-		// v3 transaction Close never returns once a log was opened (WaitGroup without Done): not called
+	{
+		// v3 transaction Close never returns once a log was opened (WaitGroup.Add without Done); it still
+		// closes the logs in the background, so it is started and given a moment
+		bound := 3 * time.Second
+		if w.c.Store == KindV3Tx {
+			bound = 20 * time.Millisecond
+		}
 		ctx, cancel := context.WithTimeout(context.Background(), 2*time.Second)
 		done := make(chan struct{})
 		go func() { _ = w.a.Close(ctx); close(done) }()
 		select {
 		case <-done:
-		case <-time.After(3 * time.Second):
+			cancel()
+		case <-time.After(bound):
+			time.AfterFunc(2*time.Second, cancel)
 		}
-		cancel()
 	}
 	w.client.Close()
 }
@@ -1141,6 +1289,11 @@ func runCase(c Case, x *vstat.Ctx) error {
 		return err
 	}
 	w.teardown()
+	if c.Store == KindV3Cfg && w.listedLoop && vstat.IsKnown(prop, fV3LoopVar) {
+		if reproduced, detail := loopVarDemo(); reproduced {
+			x.Known(fV3LoopVar, detail)
+		}
+	}
 	// listed pump finding: demonstrate it once per watcher class in a separate store
 	if w.listedPump && vstat.IsKnown(prop, fPump) {
 		classes := make([]string, 0, len(w.pumpDemo))
